@@ -283,4 +283,111 @@ example : lineWidth ("\t".toList ++ List.replicate 76 'a') = 80 ∧ lineWidth ("
     tooManyLines 26 = false ∧ tooManyLines 27 = true ∧ tooManyFuncs 5 = false ∧ tooManyFuncs 6 = true ∧
     tooManyArgs 3 = false ∧ tooManyArgs 4 = true ∧ tooManyVars 5 = false ∧ tooManyVars 6 = true := by decide +kernel
 
+/-! ### comment lines, end to end (`CheckCommentLineLen` ported completely, Model/Checks.lean) -/
+
+/-- `splitNl` is "the lines of the text": joined by newlines they give the text back, and there is one more of them
+than there are newlines -/
+theorem splitNl_spec (l : List Char) :
+    (splitNl l) ≠ [] ∧ List.intercalate ['\n'] (splitNl l) = l ∧ (splitNl l).length = l.count '\n' + 1 := by
+  induction l with
+  | nil => simp [splitNl, List.intercalate]
+  | cons c cs ih =>
+    obtain ⟨hne, hj, hl⟩ := ih
+    unfold splitNl
+    cases hs : splitNl cs with
+    | nil => exact absurd hs hne
+    | cons x xs =>
+      rw [hs] at hj hl
+      by_cases hc : c = '\n'
+      · subst hc
+        simp only [beq_self_eq_true, ↓reduceIte]
+        refine ⟨by simp, ?_, ?_⟩
+        · rw [← hj]; simp [List.intercalate]
+        · simp only [List.length_cons] at hl ⊢; simp; omega
+      · have hb : (c == '\n') = false := by simp [hc]
+        simp only [hb, Bool.false_eq_true, ↓reduceIte]
+        refine ⟨by simp, ?_, ?_⟩
+        · rw [← hj]
+          cases xs with
+          | nil => simp [List.intercalate]
+          | cons y ys => simp [List.intercalate]
+        · simp only [List.length_cons] at hl ⊢
+          have h1 : ¬ (c = '\n') := hc
+          have hcnt : (c :: cs).count '\n' = cs.count '\n' := by
+            rw [List.count_cons]; simp [h1]
+          rw [hcnt]; omega
+
+/-- **`//` comments, end to end for every rule table**: a statement after which the registry runs
+`CheckCommentLineLen` (the regenerated dependency table: `IsComment`) and whose first comment token is a `//` comment
+ending beyond column 80 gets LINE_TOO_LONG at that token. -/
+theorem line_comment_e2e (toks : List Token) (t : List Segment) (g : Segment) (hg : g ∈ t)
+    (hrule : runsAfter "CheckCommentLineLen" g.rule = true) (tk : Token) (v : String)
+    (hfind : (toks.drop g.start).find? (fun t => t.type == "COMMENT" || t.type == "MULT_COMMENT") = some tk)
+    (hty : tk.type = "COMMENT") (hv : tk.value = some v) (hcol : 1 ≤ tk.col) (hw : 80 < (tk.col - 1) + v.length) :
+    tokDiag "LINE_TOO_LONG" tk ∈ commentLenDiagsRun toks t := by
+  unfold commentLenDiagsRun
+  refine List.mem_flatMap.mpr ⟨g, hg, ?_⟩
+  unfold commentLenDiags
+  simp only [hrule, ↓reduceIte, hfind, hv]
+  have h1 : (tk.type == "MULT_COMMENT") = false := by rw [hty]; decide
+  have h2 : lineCommentTooLong tk.col v.length = true := (line_comment_iff tk.col v.length hcol).mpr hw
+  simp [h1, h2]
+
+/-- **Block comments, end to end for every rule table**: line `i` of the comment (the first one counted from the column
+where the comment starts) is reported — at line `token line + i`, column 1 — iff it is wider than 80 columns. -/
+theorem block_comment_e2e (toks : List Token) (t : List Segment) (g : Segment) (hg : g ∈ t)
+    (hrule : runsAfter "CheckCommentLineLen" g.rule = true) (tk : Token) (v : String)
+    (hfind : (toks.drop g.start).find? (fun t => t.type == "COMMENT" || t.type == "MULT_COMMENT") = some tk)
+    (hty : tk.type = "MULT_COMMENT") (hv : tk.value = some v) (first : Nat) (rest : List Nat)
+    (hlines : (splitNl v.toList).map List.length = first :: rest) (i w : Nat)
+    (hi : ((tk.col - 1 + first) :: rest)[i]? = some w) (hw : 80 < w) :
+    mkDiag "LINE_TOO_LONG" .error [⟨tk.line + i, 1, some v.length, none⟩] ∈ commentLenDiagsRun toks t := by
+  unfold commentLenDiagsRun
+  refine List.mem_flatMap.mpr ⟨g, hg, ?_⟩
+  unfold commentLenDiags
+  have h1 : (tk.type == "MULT_COMMENT") = true := by rw [hty]; decide
+  simp only [hrule, ↓reduceIte, hfind, hv, h1, hlines]
+  refine List.mem_map.mpr ⟨i, ?_, rfl⟩
+  exact (block_comment_iff tk.col first rest i).mpr ⟨w, hi, hw⟩
+
+/-- … and `CheckCommentLineLen` reports nothing else: every diagnostic it adds is LINE_TOO_LONG for a comment token
+that ends beyond column 80, or for a line of a block comment wider than 80 columns. -/
+theorem comment_len_sound (toks : List Token) (t : List Segment) (d : Diag) (hd : d ∈ commentLenDiagsRun toks t) :
+    d.name = "LINE_TOO_LONG" ∧ ∃ g ∈ t, ∃ tk ∈ toks, ∃ v, tk.value = some v ∧
+      ((tk.type ≠ "MULT_COMMENT" ∧ d = tokDiag "LINE_TOO_LONG" tk ∧ 81 < tk.col + v.length) ∨
+       (tk.type = "MULT_COMMENT" ∧ ∃ i, d = mkDiag "LINE_TOO_LONG" .error [⟨tk.line + i, 1, some v.length, none⟩] ∧
+          i ∈ blockCommentTooLong tk.col ((splitNl v.toList).map List.length))) := by
+  unfold commentLenDiagsRun at hd
+  obtain ⟨g, hg, hdg⟩ := List.mem_flatMap.mp hd
+  unfold commentLenDiags at hdg
+  split at hdg
+  · split at hdg
+    · rename_i tk hfind
+      have hmem : tk ∈ toks := List.mem_of_mem_drop (List.mem_of_find?_eq_some hfind)
+      split at hdg
+      · rename_i v hv
+        split at hdg
+        · rename_i hty
+          obtain ⟨i, hi, rfl⟩ := List.mem_map.mp hdg
+          refine ⟨rfl, g, hg, tk, hmem, v, hv, Or.inr ⟨by simpa using hty, i, rfl, hi⟩⟩
+        · rename_i hty
+          split at hdg
+          · rename_i hlong
+            simp only [List.mem_singleton] at hdg
+            subst hdg
+            refine ⟨rfl, g, hg, tk, hmem, v, hv, Or.inl ⟨by simpa using hty, rfl, ?_⟩⟩
+            unfold lineCommentTooLong at hlong
+            simpa using hlong
+          · cases hdg
+      · cases hdg
+    · cases hdg
+  · cases hdg
+
+/-- Non-vacuity: a block comment whose second line is 81 columns wide, and a `//` comment ending in column 81. -/
+example :
+    let toks : List Token := [⟨"MULT_COMMENT", 3, 1, some ("/*\n" ++ String.ofList (List.replicate 81 'x') ++ "\n*/"), 0, 88⟩, ⟨"NEWLINE", 5, 3, none, 88, 89⟩,
+      ⟨"COMMENT", 6, 1, some ("//" ++ String.ofList (List.replicate 79 'y')), 89, 170⟩, ⟨"NEWLINE", 6, 82, none, 170, 171⟩]
+    (commentLenDiagsRun toks [⟨"IsComment", 0, 2⟩, ⟨"IsComment", 2, 2⟩]).map (fun d => (d.name, d.highlights.map (fun h => (h.line, h.col))))
+      = [("LINE_TOO_LONG", [(4, 1)]), ("LINE_TOO_LONG", [(6, 1)])] ∧ runsAfter "CheckCommentLineLen" "IsComment" = true := by decide +kernel
+
 end Norm.C03
